@@ -140,11 +140,17 @@ def wavFormatTag : Nat → Nat
 
 def hasFact (codec : Nat) : Bool := codec == 0x06 || codec == 0x07 || codec == 0x10 || codec == 0x11
 
+/-- the `f` of psf_binheader_writef goes through float32_le_write / float32_be_write, which leave the zeroed field untouched
+    when `fabs (in) < FLT_MIN` (zero and binary32 subnormals; before the repair of the IEEE writers: `< 1e-30`, `wrF32Old`) -/
+def wrF32 (b : Nat) : Nat := if b % 2 ^ 31 < 0x00800000 then 0 else b
+/-- 0x0DA2425F is the largest binary32 below the double 1e-30 -/
+def wrF32Old (b : Nat) : Nat := if b % 2 ^ 31 < 0x0DA24260 then 0 else b
+
 /-- `wavlike_write_peak_chunk`: value as binary32 (through the portable serialiser), 4-byte position;
     timestamp is the pinned clock of the harness -/
 def peakChunk (h : H) (ps : List Peak) : List Byte :=
   marker "PEAK" ++ u32 h.big (8 + 8 * h.ch) ++ u32 h.big 1 ++ u32 h.big 1000000000 ++
-    ps.flatMap fun p => u32 h.big (Float.f64to32 p.value) ++ u32 h.big p.position
+    ps.flatMap fun p => u32 h.big (wrF32 (Float.f64to32 p.value)) ++ u32 h.big p.position
 
 /-- `wav_write_header` (WAV container, the chunks this model knows: fmt, fact, PEAK, data) -/
 def wavHeader (h : H) : List Byte :=
@@ -467,24 +473,24 @@ def E_BAD_CMD : Int := 1008
 def defaultSeek (h : H) (s : Store) (frame : Int) : Store :=
   s.seekSet (h.dataoffset + (h.bw : Int) * frame).toNat
 
-/-- PEAK bookkeeping of float32.c / double64.c for one write call, including the staging-buffer chunking
-    (chunks of 8192 / sizeof (file sample) items restart channel counting at the chunk start). -/
+/-- PEAK bookkeeping of float32.c / double64.c for one write call.  `float32_peak_update` / `double64_peak_update` run once
+    per staging buffer when the caller's type is not the file's type, once per call otherwise; they take item k of the
+    buffer for channel k % channels.  The running maximum `fmaxval` has the sample's own type (a `double` in
+    double64.c since the repair of KF-C18-DOUBLE-NARROW), and the staging buffer is cut at a whole number of frames
+    (repair of KF-C18-STAGING-MISALIGN).  The rules before the repairs are `peakChunkUpdateOld` / `peakUpdateOld` below. -/
 def absBits (f : Float.Fmt) (b : Nat) : Nat := b % 2 ^ (f.ebits + f.mbits)
 
 def peakChunkUpdate (f : Float.Fmt) (ch : Nat) (wcur : Int) (indx : Int) (vals : List Nat) (ps : List Peak) : List Peak :=
-  -- vals: the file-typed values of this chunk (bit patterns of `f`).
-  -- `fmaxval` is a C `float` in float32.c AND in double64.c: a double sample is narrowed when it becomes the
-  -- running maximum, but the comparison `fmaxval < fabs (buffer [k])` is made against the un-narrowed sample.
-  let narrow (v : Nat) : Nat := if f == Float.f32 then v else Float.f64to32 v          -- to binary32 bits
-  let dyOf (v : Nat) : Float.Dy := f.toDy v
+  -- vals: the file-typed values of this buffer (bit patterns of `f`); `fmaxval` is a value of the same type
+  let widen (v : Nat) : Nat := if f == Float.f32 then Float.f32to64 v else v          -- peaks [chan].value is a double
   (List.range ch).map fun c =>
     let p := ps.getD c {}
-    let first := narrow (absBits f (vals.getD c 0))
+    let first := absBits f (vals.getD c 0)
     let idxs := (List.range ((vals.length + ch - 1 - c) / ch)).map fun j => c + j * ch
     let (mx, pos) := idxs.foldl (fun (acc : Nat × Nat) k =>
         let v := absBits f (vals.getD k 0)
-        if (Float.f32.toDy acc.1).lt (dyOf v) then (narrow v, k) else acc) (first, 0)
-    let mx64 := Float.f32to64 mx
+        if (f.toDy acc.1).lt (f.toDy v) then (v, k) else acc) (first, 0)
+    let mx64 := widen mx
     if (Float.f64.toDy p.value).lt (Float.f64.toDy mx64) then
       { value := mx64, position := wcur + indx + (pos / ch : Nat) }
     else p
@@ -492,6 +498,9 @@ def peakChunkUpdate (f : Float.Fmt) (ch : Nat) (wcur : Int) (indx : Int) (vals :
 def chunksOf (n : Nat) (l : List α) : List (List α) :=
   if n == 0 then [l] else
   (List.range ((l.length + n - 1) / n)).map fun i => (l.drop (i * n)).take n
+
+/-- items per staging buffer: `bufferlen = ARRAY_LEN (ubuf.Xbuf) ; bufferlen -= bufferlen % channels` -/
+def stagingLen (f : Float.Fmt) (ch : Nat) : Nat := 8192 / (f.width / 8) - 8192 / (f.width / 8) % ch
 
 def peakUpdate (h : H) (ty : Ty) (vals : List Int) : Option (List Peak) :=
   match h.peak with
@@ -505,10 +514,47 @@ def peakUpdate (h : H) (ty : Ty) (vals : List Int) : Option (List Peak) :=
       | _ => (match ty with | .s16 | .s32 => floatOfInt Float.f64 h.conv.scaleIF ty v | .f32 => Float.f32to64 v.toNat | .f64 => v.toNat)
     let fv := vals.map conv
     let whole := ty == fileTy           -- host_write_f / host_write_d update once for the whole call
-    let csz := if whole then 0 else 8192 / (f.width / 8)
+    let csz := if whole then 0 else stagingLen f h.ch
     let cs := chunksOf csz fv
     let (ps, _) := cs.foldl (fun (acc : List Peak × Nat) c =>
         (peakChunkUpdate f h.ch h.wpos ((acc.2 / h.ch : Nat) : Int) c acc.1, acc.2 + c.length)) (ps, 0)
+    some ps
+
+/-! ### the rules before the repairs (kept for the `…_old_rule` theorems of C18 / C07) -/
+
+/-- `float fmaxval` in double64.c: a double sample was narrowed when it became the running maximum, but the comparison
+    `fmaxval < fabs (buffer [k])` was made against the un-narrowed sample -/
+def peakChunkUpdateOld (f : Float.Fmt) (ch : Nat) (wcur : Int) (indx : Int) (vals : List Nat) (ps : List Peak) : List Peak :=
+  let narrow (v : Nat) : Nat := if f == Float.f32 then v else Float.f64to32 v
+  let dyOf (v : Nat) : Float.Dy := f.toDy v
+  (List.range ch).map fun c =>
+    let p := ps.getD c {}
+    let first := narrow (absBits f (vals.getD c 0))
+    let idxs := (List.range ((vals.length + ch - 1 - c) / ch)).map fun j => c + j * ch
+    let (mx, pos) := idxs.foldl (fun (acc : Nat × Nat) k =>
+        let v := absBits f (vals.getD k 0)
+        if (Float.f32.toDy acc.1).lt (dyOf v) then (narrow v, k) else acc) (first, 0)
+    let mx64 := Float.f32to64 mx
+    if (Float.f64.toDy p.value).lt (Float.f64.toDy mx64) then
+      { value := mx64, position := wcur + indx + (pos / ch : Nat) }
+    else p
+
+/-- staging buffers of 8192 / sizeof (file sample) items whatever the channel count -/
+def peakUpdateOld (h : H) (ty : Ty) (vals : List Int) : Option (List Peak) :=
+  match h.peak with
+  | none => none
+  | some ps =>
+    let (f, fileTy) : Float.Fmt × Ty := match h.enc with | .dbl _ => (Float.f64, .f64) | _ => (Float.f32, .f32)
+    let conv (v : Int) : Nat :=
+      match h.enc with
+      | .flt _ => (match ty with | .s16 | .s32 => floatOfInt Float.f32 h.conv.scaleIF ty v | .f32 => v.toNat | .f64 => Float.f64to32 v.toNat)
+      | _ => (match ty with | .s16 | .s32 => floatOfInt Float.f64 h.conv.scaleIF ty v | .f32 => Float.f32to64 v.toNat | .f64 => v.toNat)
+    let fv := vals.map conv
+    let whole := ty == fileTy
+    let csz := if whole then 0 else 8192 / (f.width / 8)
+    let cs := chunksOf csz fv
+    let (ps, _) := cs.foldl (fun (acc : List Peak × Nat) c =>
+        (peakChunkUpdateOld f h.ch h.wpos ((acc.2 / h.ch : Nat) : Int) c acc.1, acc.2 + c.length)) (ps, 0)
     some ps
 
 def stepRead (h : H) (s : Store) (ty : Ty) (frameCall : Bool) (n : Int) : H × Store × Out :=
